@@ -162,6 +162,7 @@ class Worker:
                     elif t == "end":
                         if self.wid >= 100:
                             d["race"] = True
+                        d["_seq"] = (self.base, self.lo, self.stride)
                         self.results.append(d)
                         self.open_idx = None
                     elif t == "done":
@@ -359,6 +360,20 @@ def pick_fp(res, fp):
 def candidates(sc):
     """yield simpler scenarios, roughly biggest simplification first"""
     acts = sc.get("actors") or []
+    pre = sc.get("prefix") or []
+    if pre:
+        n = len(pre)
+        if n > 1:
+            for lo, hi in ((0, n // 2), (n // 2, n)):
+                c = copy.deepcopy(sc)
+                del c["prefix"][lo:hi]
+                yield c
+        for i in range(n):
+            c = copy.deepcopy(sc)
+            del c["prefix"][i]
+            if not c["prefix"]:
+                c.pop("prefix")
+            yield c
     if len(acts) > 1:
         for i in range(len(acts)):
             c = copy.deepcopy(sc)
@@ -717,6 +732,25 @@ def main():
                     log("note: candidate idx=%s did not reproduce alone, idx=%s with the same fingerprint does" % (res.get("idx"), res2.get("idx")))
                     res, sc, race, binp, xenv, again = res2, sc2, race2, binp2, xenv2, again2
                     break
+        if again.get("verdict") != "violation" and res.get("_seq") and res.get("idx") is not None and res.get("kind") != "runaway-handler":
+            # still nothing: the run may depend on state the worker's earlier runs left in the process (package-level
+            # variables, pools).  Replay it behind the runs that preceded it in its worker, doubling the history.
+            base_w, lo_w, stride_w = res["_seq"]
+            k = 1
+            while k <= 128:
+                frm = max(lo_w, res["idx"] - k * stride_w)
+                pre = emit_scenarios(prop, tier, base_w, frm, res["idx"], stride_w, binp, (xenv or cfg.get("env")))
+                sc3 = dict(sc, prefix=pre)
+                again3 = run_single(prop, sc3, tier, binpath=binp, extra_env=xenv, timeout=900)
+                if pick_fp(again3, fp) is not None:
+                    again3 = pick_fp(again3, fp)
+                if again3.get("verdict") == "violation" and fingerprint(again3) == fp:
+                    log("note: candidate idx=%s reproduces behind %d earlier runs of its worker (process-global state)" % (res.get("idx"), len(pre)))
+                    sc, again = sc3, again3
+                    break
+                if frm == lo_w:
+                    break
+                k *= 2
         if again.get("verdict") != "violation" or fingerprint(again) != fp:
             # second chance: the fingerprint may legitimately differ in detail; accept same kind
             if again.get("verdict") == "violation":
@@ -772,6 +806,19 @@ def main():
     sys.exit(0)
 
 UNATTRIBUTED = []
+
+def emit_scenarios(prop, tier, base, frm, to, stride, binpath, extra_env):
+    """the scenarios a worker generated for indices frm, frm+stride, ... < to"""
+    d = tempfile.mkdtemp(prefix="htsim-emit-")
+    try:
+        out = os.path.join(d, "o.jsonl")
+        env = worker_env({"VERIF_PROP": prop, "VERIF_TIER": tier, "VERIF_SEEDS": "%d:%d:%d" % (base, frm, to), "VERIF_STRIDE": str(stride), "VERIF_EMIT": "1", "VERIF_OUT": out})
+        if extra_env:
+            env.update(extra_env)
+        subprocess.run([binpath, "-test.run", "^TestWorker$"], env=env, cwd=d, stdout=subprocess.DEVNULL, stderr=subprocess.DEVNULL, timeout=600)
+        return [json.loads(line)["sc"] for line in open(out) if '"scenario"' in line]
+    finally:
+        shutil.rmtree(d, ignore_errors=True)
 
 def emit_scenario(prop, tier, base, idx, binpath, extra_env):
     d = tempfile.mkdtemp(prefix="htsim-emit-")
